@@ -61,7 +61,8 @@ static int vp_tables_obj;   /* identity of the table cache */
    first free slot of the last VP_PUTCAP ones.  A value may sit in two slots
    (has/del look at all of them); tree->size is not maintained. */
 #define VP_PUTCAP 2
-#define VP_SETCAP (VP_LIVE + VP_PEND + VP_PUTCAP)
+#define VP_PUTBASE (VP_LIVE + VP_PEND + 1)
+#define VP_SETCAP (VP_PUTBASE + VP_PUTCAP)
 #define VP_NSETS 4
 struct vp_set { uint64_t v[VP_SETCAP]; int used[VP_SETCAP]; };
 static struct vp_set vp_set0, vp_set1, vp_set2, vp_set3;   /* distinct objects, never an indexed pool */
@@ -121,7 +122,7 @@ rb_set64_put(rb_tree_t *tree, uint64_t item) {
   struct vp_set *s = (struct vp_set *)tree->arg;
   int k, done = 0;
   int had = rb_set64_has(tree, item);
-  for (k = VP_LIVE + VP_PEND; k < VP_SETCAP; k++) {
+  for (k = VP_PUTBASE; k < VP_SETCAP; k++) {
     if (!done && !s->used[k]) {
       s->used[k] = 1;
       s->v[k] = item;
@@ -167,6 +168,8 @@ static uint64_t dir_num[VP_N];
 
 static uint64_t live_num[VP_LIVE];
 static int live_n = 0;
+static uint64_t live_extra = 0;      /* a table installed by the code under test (flush.c) */
+static int live_extra_on = 0;
 static uint64_t pend_num[VP_PEND];   /* ghost copy of pending_outputs at the time of the listing */
 static int pend_n = 0;
 
@@ -179,6 +182,10 @@ static int g_removed_total = 0;
 static int g_evicted[VP_N];
 static int g_evict_total = 0;
 static int g_addfiles = 0;
+/* version counters as the collector saw them under the mutex (last collection) */
+static uint64_t g_gc_log_number, g_gc_prev_log_number, g_gc_manifest_number;
+
+static void vp_on_gc_start(void);   /* harness hook: a collection passed the bg_error gate */
 
 int
 ldb_get_children(const char *path, char ***out) {
@@ -250,8 +257,13 @@ ldb_versions_add_files(ldb_versions_t *v, rb_set64_t *live) {
   VP_ASSERT(v == &vs, "live files of the database's version set");
   VP_ASSERT(vp_mutex_held, "version list walked under the mutex");
   g_addfiles++;
+  g_gc_log_number = vs.log_number;
+  g_gc_prev_log_number = vs.prev_log_number;
+  g_gc_manifest_number = vs.manifest_file_number;
+  vp_on_gc_start();
   for (k = 0; k < VP_LIVE; k++)
     vp_set_add_at(live, VP_PEND + k, k < live_n, live_num[k]);
+  vp_set_add_at(live, VP_PEND + VP_LIVE, live_extra_on, live_extra);
 }
 
 /* ---- independent reference: which entries must survive ------------------- */
@@ -261,7 +273,7 @@ ref_in_live(uint64_t n) {
   for (k = 0; k < VP_LIVE; k++)
     if (k < live_n && live_num[k] == n)
       return 1;
-  return 0;
+  return live_extra_on && live_extra == n;
 }
 
 static int
